@@ -26,6 +26,7 @@
 //	*arrVal an array (value semantics: copied on assignment, `:=`, range, composite literal, like Go
 //	        arrays) or a slice (reference semantics: shared; writes through a slice that comes from a package-
 //	        level table are refused).
+//	*ptrVal, tupleVal, *closureVal   see N7/N8.
 //	*structVal, *funcVal   a struct value (copied like an array) / one of the file's uint32 helpers as a
 //	        function value (`ff` stored in a table, `r.f(…)`); the callee is resolved to the helper's NAME and the
 //	        helper's body is translated by the caller as before, so a changed round function still changes the model.
@@ -68,8 +69,23 @@
 //	   never loaded is the constant 0 it is in Go, a word stored in another cell is found where it was stored.
 //	   `_ = chunk[c]` with c < 64 (a bounds-check hint) is a no-op: callers pass 64 bytes (hand model, tied by L2).
 //
-// REFUSED (non-exhaustive): closures, calls of anything but the uint32 helpers / len / conversions /
-// binary.LittleEndian.Uint32, pointers and `&`, slicing of anything but `chunk`, goto/labels/defer/go,
+//	N7 function literals.  A `func(…) {…}` bound to a local of processChunk OUTSIDE every loop (so that it cannot
+//	   capture a per-iteration variable) and called as `step(ff, 0, 3)` / `w := word(k)` is executed on the
+//	   evaluated arguments in a scope whose parent is the scope of its creation — Go's closure semantics for
+//	   captured variables, which the evaluator's scopes share by reference; parameters are copied like any
+//	   assignment; at most one result; nesting deeper than 8 calls is refused (recursion).
+//
+//	N8 functions and array pointers.  A package-level function of the directory that is not one of the uint32 helpers
+//	   (`func round1(a, b, c, d uint32, x [16]uint32) (uint32, uint32, uint32, uint32)`, `func load(x *[16]uint32, chunk
+//	   []byte)`) is executed like a function literal, in a scope that sees package-level names only; several results are
+//	   assigned as a tuple (`a, b, c, d = round1(…)`), named results and a bare return are understood.  `&arr` of a local
+//	   array (or of md4.state) is a reference to that array: indexing, len and range go through it, so a callee that
+//	   fills `x` or updates `v` through a pointer changes the caller's array exactly as in Go.  The address of a package-
+//	   level table is refused (it could be written through), and so is handing on the receiver.  A function that
+//	   assigns to a package-level variable is refused (only locals, parameters, array cells and md4.state are places).
+//
+// REFUSED (non-exhaustive): function literals created inside loops, methods, calls of anything but the above / len /
+// conversions / binary.LittleEndian.Uint32, pointers to anything but arrays, slicing of anything but `chunk`, goto/labels/defer/go,
 // fallthrough, strings, floats, any field of the receiver other than `state`, a condition or index that
 // depends on the input, integer results outside the ranges above, more than 100000 executed statements.
 package main
@@ -132,8 +148,23 @@ type structVal struct {
 }
 type funcVal struct{ name string }
 
-// opaque marker for the chunk parameter
+// closureVal is a function literal together with the scope it was created in (N7).
+type closureVal struct {
+	typ  *ast.FuncType
+	body *ast.BlockStmt
+	env  *scope // nil: a package-level function (only package-level names are visible in its body)
+	at   ast.Node
+}
+
+// opaque markers for the chunk parameter and the receiver (bound to their names in processChunk's scope only)
 type chunkVal struct{}
+type recvVal struct{}
+
+// ptrVal is `&arr`: a reference to an array value (N8); indexing goes through it, so writes are seen by the owner.
+type ptrVal struct{ arr *arrVal }
+
+// tupleVal is the result of a function with several results.
+type tupleVal []any
 
 // ---- types ---------------------------------------------------------------------------------------
 
@@ -146,6 +177,8 @@ const (
 	gSlice
 	gStruct
 	gFunc
+	gPtr   // pointer to an array
+	gChunk // []byte: only the chunk parameter has this type
 )
 
 type gtype struct {
@@ -178,6 +211,7 @@ func (s *scope) lookup(n string) *any {
 }
 
 type peval struct {
+	pkgFuncs  map[string]*ast.FuncDecl // package-level functions that are not uint32 helpers
 	m         *md4x
 	files     []*ast.File // all non-test files of the package
 	pkgVars   map[string]*ast.ValueSpec
@@ -193,6 +227,9 @@ type peval struct {
 	sc        *scope
 	budget    int
 	inPkgInit bool
+	loopDepth int // > 0 while a loop body is being executed
+	fnDepth   int // > 0 while the body of a function literal is being executed
+	retVal    any
 }
 
 type ctl int
@@ -268,7 +305,19 @@ func (p *peval) resolveType(e ast.Expr) (*gtype, error) {
 			return p.resolveType(te)
 		}
 		return nil, p.errf(e, "type %s not understood", t.Name)
+	case *ast.StarExpr:
+		elt, err := p.resolveType(t.X)
+		if err != nil {
+			return nil, err
+		}
+		if elt.kind != gArray {
+			return nil, p.errf(e, "pointer to something that is not an array")
+		}
+		return &gtype{kind: gPtr, elt: elt}, nil
 	case *ast.ArrayType:
+		if id, ok := t.Elt.(*ast.Ident); ok && t.Len == nil && id.Name == "byte" {
+			return &gtype{kind: gChunk}, nil
+		}
 		elt, err := p.resolveType(t.Elt)
 		if err != nil {
 			return nil, err
@@ -356,8 +405,8 @@ func (p *peval) coerce(v any, t *gtype, at ast.Node) (any, error) {
 			}
 			return p.conv(x, t.ik, at)
 		case *term:
-			if t.ik != kUnsigned {
-				return nil, p.errf(at, "a uint32 value stored in a signed place")
+			if t.ik != kUnsigned || x.kind == tBytes {
+				return nil, p.errf(at, "this value cannot be held in a place of this type")
 			}
 			return x, nil
 		}
@@ -379,6 +428,17 @@ func (p *peval) coerce(v any, t *gtype, at ast.Node) (any, error) {
 		}
 	case gFunc:
 		if f, ok := v.(*funcVal); ok && f != nil {
+			return v, nil
+		}
+		if _, ok := v.(*closureVal); ok {
+			return v, nil
+		}
+	case gPtr:
+		if q, ok := v.(*ptrVal); ok && (t.elt.n < 0 || len(q.arr.cells) == t.elt.n) {
+			return v, nil
+		}
+	case gChunk:
+		if _, ok := v.(chunkVal); ok {
 			return v, nil
 		}
 	}
@@ -779,9 +839,6 @@ func (p *peval) eval(e ast.Expr) (any, error) {
 		case "false":
 			return cBool(false), nil
 		}
-		if !p.inPkgInit && v.Name == p.chunk {
-			return chunkVal{}, nil
-		}
 		if c, ok := p.m.consts[v.Name]; ok {
 			if c > 0xFFFFFFFF {
 				return nil, p.errf(e, "constant %s does not fit 32 bits", v.Name)
@@ -794,6 +851,9 @@ func (p *peval) eval(e ast.Expr) (any, error) {
 		if p.m.helpers[v.Name] != nil {
 			return &funcVal{v.Name}, nil
 		}
+		if fd := p.pkgFuncs[v.Name]; fd != nil && !p.inPkgInit {
+			return &closureVal{typ: fd.Type, body: fd.Body, env: nil, at: fd}, nil
+		}
 		return nil, p.errf(e, "identifier %s not understood", v.Name)
 	case *ast.UnaryExpr:
 		x, err := p.eval(v.X)
@@ -801,6 +861,14 @@ func (p *peval) eval(e ast.Expr) (any, error) {
 			return nil, err
 		}
 		switch v.Op {
+		case token.AND:
+			if a, ok := x.(*arrVal); ok && !a.slice {
+				if a.readonly {
+					return nil, p.errf(e, "address of a package-level table: it could be changed through the pointer, refused")
+				}
+				return &ptrVal{a}, nil
+			}
+			return nil, p.errf(e, "& of something that is not an array variable")
 		case token.SUB:
 			if c, ok := x.(cInt); ok && c.k != kUnsigned {
 				return p.binConst(token.SUB, cInt{0, c.k}, c, e)
@@ -876,6 +944,9 @@ func (p *peval) eval(e ast.Expr) (any, error) {
 			}
 			return &term{kind: tBytes, parts: []bytePart{{ic.v, 0}}}, nil
 		}
+		if q, ok := x.(*ptrVal); ok {
+			x = q.arr
+		}
 		a, ok := x.(*arrVal)
 		if !ok {
 			return nil, p.errf(e, "indexing something that is not an array, a slice or the chunk")
@@ -885,15 +956,15 @@ func (p *peval) eval(e ast.Expr) (any, error) {
 		}
 		return a.cells[ic.v], nil
 	case *ast.SelectorExpr:
-		if id, ok := v.X.(*ast.Ident); ok && id.Name == p.recv && p.sc.lookup(id.Name) == nil && !p.inPkgInit {
+		x, err := p.eval(v.X)
+		if err != nil {
+			return nil, err
+		}
+		if _, ok := x.(recvVal); ok {
 			if v.Sel.Name != "state" {
 				return nil, p.errf(e, "field %s.%s: processChunk may only touch %s.state", p.recv, v.Sel.Name, p.recv)
 			}
 			return p.state, nil
-		}
-		x, err := p.eval(v.X)
-		if err != nil {
-			return nil, err
 		}
 		s, ok := x.(*structVal)
 		if !ok {
@@ -915,6 +986,23 @@ func (p *peval) eval(e ast.Expr) (any, error) {
 		return p.compositeLit(v, t)
 	case *ast.CallExpr:
 		return p.call(v)
+	case *ast.StarExpr:
+		x, err := p.eval(v.X)
+		if err != nil {
+			return nil, err
+		}
+		if q, ok := x.(*ptrVal); ok {
+			return q.arr, nil
+		}
+		return nil, p.errf(e, "* of something that is not a pointer to an array")
+	case *ast.FuncLit:
+		if p.inPkgInit {
+			return nil, p.errf(e, "function literal in a package-level initialiser")
+		}
+		if p.loopDepth > 0 {
+			return nil, p.errf(e, "function literal created inside a loop: it would capture per-iteration variables, refused")
+		}
+		return &closureVal{typ: v.Type, body: v.Body, env: p.sc, at: v}, nil
 	}
 	return nil, p.errf(e, "expression shape %T is not in the evaluated fragment", e)
 }
@@ -954,6 +1042,9 @@ func (p *peval) call(c *ast.CallExpr) (any, error) {
 			if err != nil {
 				return nil, err
 			}
+			if q, ok := x.(*ptrVal); ok {
+				x = q.arr
+			}
 			if a, ok := x.(*arrVal); ok {
 				return cInt{int64(len(a.cells)), kSigned}, nil
 			}
@@ -969,7 +1060,9 @@ func (p *peval) call(c *ast.CallExpr) (any, error) {
 		if !ok || sl.Max != nil || sl.Low == nil {
 			return nil, p.errf(c, "Uint32: expected %s[c:] or %s[c:d]", p.chunk, p.chunk)
 		}
-		if a, ok := sl.X.(*ast.Ident); !ok || a.Name != p.chunk || p.sc.lookup(a.Name) != nil {
+		if xv, err := p.eval(sl.X); err != nil {
+			return nil, err
+		} else if _, ok := xv.(chunkVal); !ok {
 			return nil, p.errf(c, "Uint32 of something other than a slice of the parameter %s", p.chunk)
 		}
 		lo, err := p.eval(sl.Low)
@@ -996,6 +1089,9 @@ func (p *peval) call(c *ast.CallExpr) (any, error) {
 	fv, err := p.eval(c.Fun)
 	if err != nil {
 		return nil, err
+	}
+	if cl, ok := fv.(*closureVal); ok {
+		return p.callClosure(cl, c)
 	}
 	f, ok := fv.(*funcVal)
 	if !ok || f == nil || p.m.helpers[f.name] == nil {
@@ -1038,6 +1134,121 @@ func (p *peval) call(c *ast.CallExpr) (any, error) {
 	return t, nil
 }
 
+// callClosure executes the body of a function literal (N7) or of a package-level function that is not one
+// of the uint32 helpers (N8) on the evaluated arguments.
+func (p *peval) callClosure(cl *closureVal, c *ast.CallExpr) (any, error) {
+	if p.fnDepth >= 8 {
+		return nil, p.errf(c, "functions nested more than 8 calls deep (recursion?), refused")
+	}
+	if cl.body == nil {
+		return nil, p.errf(c, "function without a body")
+	}
+	ft := cl.typ
+	if ft.TypeParams != nil {
+		return nil, p.errf(c, "generic function")
+	}
+	var pnames []string
+	var ptypes []*gtype
+	for _, f := range ft.Params.List {
+		if _, ok := f.Type.(*ast.Ellipsis); ok || len(f.Names) == 0 {
+			return nil, p.errf(f, "variadic or unnamed parameter")
+		}
+		t, err := p.resolveType(f.Type)
+		if err != nil {
+			return nil, err
+		}
+		for _, n := range f.Names {
+			pnames = append(pnames, n.Name)
+			ptypes = append(ptypes, t)
+		}
+	}
+	if len(pnames) != len(c.Args) {
+		return nil, p.errf(c, "wrong number of arguments")
+	}
+	var rtypes []*gtype
+	var rnames []string
+	if ft.Results != nil {
+		for _, f := range ft.Results.List {
+			t, err := p.resolveType(f.Type)
+			if err != nil {
+				return nil, err
+			}
+			if len(f.Names) == 0 {
+				rtypes = append(rtypes, t)
+				rnames = append(rnames, "")
+			}
+			for _, n := range f.Names {
+				rtypes = append(rtypes, t)
+				rnames = append(rnames, n.Name)
+			}
+		}
+	}
+	args := make([]any, len(c.Args))
+	for i, a := range c.Args {
+		x, err := p.eval(a)
+		if err != nil {
+			return nil, err
+		}
+		if args[i], err = p.coerce(copyVal(x), ptypes[i], a); err != nil {
+			return nil, err
+		}
+	}
+	saveSc, saveRet := p.sc, p.retVal
+	p.sc = &scope{vars: map[string]*any{}, parent: cl.env}
+	p.fnDepth++
+	defer func() { p.sc, p.retVal = saveSc, saveRet; p.fnDepth-- }()
+	fnScope := p.sc
+	for i, n := range pnames {
+		p.declare(n, args[i])
+	}
+	for i, n := range rnames {
+		if n == "" {
+			continue
+		}
+		z, err := p.zero(rtypes[i], ft.Results)
+		if err != nil {
+			return nil, err
+		}
+		p.declare(n, z)
+	}
+	p.retVal = nil
+	ct, err := p.block(cl.body.List)
+	if err != nil {
+		return nil, err
+	}
+	if len(rtypes) == 0 {
+		return nil, nil
+	}
+	if ct != ctlReturn {
+		return nil, p.errf(cl.at, "function with a result ends without return")
+	}
+	var rvs []any
+	if tv, ok := p.retVal.(tupleVal); ok {
+		rvs = tv
+	} else if p.retVal == nil { // bare return: the named results
+		for _, n := range rnames {
+			ptr, ok := fnScope.vars[n]
+			if !ok {
+				return nil, p.errf(cl.at, "bare return without named results")
+			}
+			rvs = append(rvs, *ptr)
+		}
+	}
+	if len(rvs) != len(rtypes) {
+		return nil, p.errf(cl.at, "number of returned values differs from the declared results")
+	}
+	out := make(tupleVal, len(rvs))
+	for i, rv := range rvs {
+		if out[i], err = p.coerce(copyVal(rv), rtypes[i], cl.at); err != nil {
+			return nil, err
+		}
+	}
+	if len(out) == 1 {
+		return out[0], nil
+	}
+	return out, nil
+}
+
 // ---- places (assignable locations) -----------------------------------------------------------------
 
 type place struct {
@@ -1066,6 +1277,9 @@ func (p *peval) placeOf(e ast.Expr) (*place, error) {
 		if err != nil {
 			return nil, err
 		}
+		if q, ok := x.(*ptrVal); ok {
+			x = q.arr
+		}
 		a, ok := x.(*arrVal)
 		if !ok {
 			return nil, p.errf(e, "assignment to an element of something that is not an array")
@@ -1086,7 +1300,9 @@ func (p *peval) placeOf(e ast.Expr) (*place, error) {
 		}
 		return &place{arr: a, idx: int(ic.v), at: e}, nil
 	case *ast.SelectorExpr:
-		if id, ok := v.X.(*ast.Ident); ok && id.Name == p.recv && p.sc.lookup(id.Name) == nil && v.Sel.Name == "state" {
+		if x, err := p.eval(v.X); err != nil {
+			return nil, err
+		} else if _, ok := x.(recvVal); ok && v.Sel.Name == "state" {
 			// whole-array assignment md4.state = <array>: cell by cell
 			return &place{arr: nil, idx: -1, at: e}, nil
 		}
@@ -1230,6 +1446,12 @@ func (p *peval) defaultKind(v any, at ast.Node) (any, error) {
 	if _, ok := v.(chunkVal); ok {
 		return nil, p.errf(at, "the chunk parameter may only be read word by word")
 	}
+	if _, ok := v.(recvVal); ok {
+		return nil, p.errf(at, "the receiver may not be copied or passed on")
+	}
+	if _, ok := v.(tupleVal); ok {
+		return nil, p.errf(at, "several values where one is expected")
+	}
 	return v, nil
 }
 
@@ -1371,7 +1593,9 @@ func (p *peval) exec(s ast.Stmt) (ctl, error) {
 					break
 				}
 			}
+			p.loopDepth++
 			c, err := p.block(v.Body.List)
+			p.loopDepth--
 			if err != nil {
 				return ctlNone, err
 			}
@@ -1407,6 +1631,9 @@ func (p *peval) exec(s ast.Stmt) (ctl, error) {
 				return ctlNone, p.errf(s, "range over an integer with two variables")
 			}
 			n = int(x.v)
+		case *ptrVal:
+			n = len(x.arr.cells)
+			arr = x.arr
 		case *arrVal:
 			n = len(x.cells)
 			arr = x
@@ -1445,7 +1672,9 @@ func (p *peval) exec(s ast.Stmt) (ctl, error) {
 				}
 				p.declare(vn, ev)
 			}
+			p.loopDepth++
 			c, err := p.block(v.Body.List)
+			p.loopDepth--
 			p.pop()
 			if err != nil {
 				return ctlNone, err
@@ -1543,10 +1772,46 @@ func (p *peval) exec(s ast.Stmt) (ctl, error) {
 		}
 		return ctlNone, p.errf(s, "%s not understood", v.Tok)
 	case *ast.ReturnStmt:
+		if p.fnDepth > 0 {
+			p.retVal = nil
+			var tv tupleVal
+			for _, r := range v.Results {
+				x, err := p.eval(r)
+				if err != nil {
+					return ctlNone, err
+				}
+				if x == nil {
+					return ctlNone, p.errf(s, "return of a call without a value")
+				}
+				if _, ok := x.(tupleVal); ok {
+					return ctlNone, p.errf(s, "return of a call with several values")
+				}
+				tv = append(tv, copyVal(x))
+			}
+			if len(tv) > 0 {
+				p.retVal = tv
+			}
+			return ctlReturn, nil
+		}
 		if len(v.Results) != 0 {
 			return ctlNone, p.errf(s, "processChunk returns a value")
 		}
 		return ctlReturn, nil
+	case *ast.ExprStmt:
+		// only a call of a function literal may stand as a statement
+		ce, ok := v.X.(*ast.CallExpr)
+		if !ok {
+			return ctlNone, p.errf(s, "expression statement that is not a call")
+		}
+		fv, err := p.eval(ce.Fun)
+		if err != nil {
+			return ctlNone, err
+		}
+		if _, ok := fv.(*closureVal); !ok {
+			return ctlNone, p.errf(s, "call statement of something that is not a function literal of processChunk")
+		}
+		_, err = p.call(ce)
+		return ctlNone, err
 	}
 	return ctlNone, p.errf(s, "statement shape %T is not in the evaluated fragment", s)
 }
@@ -1554,7 +1819,13 @@ func (p *peval) exec(s ast.Stmt) (ctl, error) {
 func (p *peval) assign(s *ast.AssignStmt) error {
 	switch s.Tok {
 	case token.DEFINE, token.ASSIGN:
-		if len(s.Lhs) != len(s.Rhs) {
+		var tuple tupleVal
+		if len(s.Lhs) > 1 && len(s.Rhs) == 1 {
+			// a, b, c, d = f(…): a function literal or package-level function with several results
+			if _, ok := s.Rhs[0].(*ast.CallExpr); !ok {
+				return p.errf(s, "assignment from a multi-valued expression that is not a call")
+			}
+		} else if len(s.Lhs) != len(s.Rhs) {
 			return p.errf(s, "assignment from a multi-valued expression")
 		}
 		// Go: index operands on the left and all operands on the right are evaluated first, then the
@@ -1578,12 +1849,30 @@ func (p *peval) assign(s *ast.AssignStmt) error {
 			}
 			places[i] = pl
 		}
-		vals := make([]any, len(s.Rhs))
-		for i, r := range s.Rhs {
-			// `_ = chunk[c]`: bounds-check hint
-			x, err := p.eval(r)
+		vals := make([]any, len(s.Lhs))
+		if len(s.Lhs) > 1 && len(s.Rhs) == 1 {
+			x, err := p.eval(s.Rhs[0])
 			if err != nil {
 				return err
+			}
+			tv, ok := x.(tupleVal)
+			if !ok || len(tv) != len(s.Lhs) {
+				return p.errf(s, "call does not give as many values as are assigned")
+			}
+			tuple = tv
+		}
+		for i := range s.Lhs {
+			// `_ = chunk[c]`: bounds-check hint
+			var x any
+			var r ast.Expr = s.Rhs[0]
+			var err error
+			if tuple != nil {
+				x = tuple[i]
+			} else {
+				r = s.Rhs[i]
+				if x, err = p.eval(r); err != nil {
+					return err
+				}
 			}
 			if places[i] != nil && places[i].blank {
 				vals[i] = nil
@@ -1667,7 +1956,7 @@ var stPaths = [4]string{"st.1", "st.2.1", "st.2.2.1", "st.2.2.2"}
 // evalProcessChunk runs the body of processChunk symbolically and writes the data-flow graph back as the
 // canonical `let` sequence (normalisation N4).
 func (m *md4x) evalProcessChunk(dir string, file *ast.File, pcFn *ast.FuncDecl) (*kernelResult, error) {
-	p := &peval{m: m, pkgVars: map[string]*ast.ValueSpec{}, pkgVarIx: map[string]int{}, pkgTypes: map[string]ast.Expr{},
+	p := &peval{m: m, pkgFuncs: map[string]*ast.FuncDecl{}, pkgVars: map[string]*ast.ValueSpec{}, pkgVarIx: map[string]int{}, pkgTypes: map[string]ast.Expr{},
 		pkgCache: map[string]any{}, pkgBusy: map[string]bool{}, pcFn: pcFn, budget: 100000}
 	// every non-test file of the package (the tables may live in another file; so may code that changes them)
 	ents, err := os.ReadDir(dir)
@@ -1691,6 +1980,9 @@ func (m *md4x) evalProcessChunk(dir string, file *ast.File, pcFn *ast.FuncDecl) 
 	}
 	for _, f := range p.files {
 		for _, d := range f.Decls {
+			if fd, ok := d.(*ast.FuncDecl); ok && fd.Recv == nil && m.helpers[fd.Name.Name] == nil && fd.Name.Name != "init" {
+				p.pkgFuncs[fd.Name.Name] = fd
+			}
 			gd, ok := d.(*ast.GenDecl)
 			if !ok {
 				continue
@@ -1782,6 +2074,8 @@ func (m *md4x) evalProcessChunk(dir string, file *ast.File, pcFn *ast.FuncDecl) 
 		inits[i] = p.state.cells[i].(*term)
 	}
 	p.sc = &scope{vars: map[string]*any{}}
+	p.declare(p.recv, recvVal{})
+	p.declare(p.chunk, chunkVal{})
 	if _, err := p.block(pcFn.Body.List); err != nil {
 		return nil, err
 	}
